@@ -5,6 +5,8 @@
      up(p, i) / down(p, i)     an incarnation starts (attaches a session with the other peer, runs a receive loop) / stops
      rxoff(p, i) / rxon(p, i)  its application stops / resumes reading (no acks while it does not read)
      send(p, i)                its application starts a Send to the other peer
+     flap(p, i)                a macro step: while the other peer sends a series of messages one after the other, the application of
+                               incarnation i keeps abandoning (cancelling) and restarting its receive call
    The driver then stabilises the system (exactly the newest incarnation of each peer up and reading, nobody reconnects any more)
    and waits.  SigSysMon.tla judges what the real system did: every Send on an incarnation that is still up returns success
    (C23) and was received by the partner's application before (C21); every received message is one the partner sent (C19/C20).
@@ -24,6 +26,9 @@ Next == /\ Len(hist) < MaxStep
            \/ \E p \in Peer, i \in Inc : up[p][i] /\ up' = [up EXCEPT ![p][i] = FALSE] /\ Rec("down", p, i) /\ UNCHANGED <<rx, started, nsend>>
            \/ \E p \in Peer, i \in Inc : up[p][i] /\ rx' = [rx EXCEPT ![p][i] = ~@] /\ Rec(IF rx[p][i] THEN "rxoff" ELSE "rxon", p, i) /\ UNCHANGED <<up, started, nsend>>
            \/ \E p \in Peer, i \in Inc : up[p][i] /\ nsend < MaxSend /\ nsend' = nsend + 1 /\ Rec("send", p, i) /\ UNCHANGED <<up, rx, started>>
+           \/ \E p \in Peer, i \in Inc : /\ up[p][i] /\ rx[p][i] /\ nsend < MaxSend /\ nsend' = nsend + 1
+                                           /\ (\E j \in Inc : up[IF p = "A" THEN "B" ELSE "A"][j])
+                                           /\ Rec("flap", p, i) /\ UNCHANGED <<up, rx, started>>
 Spec == Init /\ [][Next]_vars
 \* only histories in which something is sent and both peers have been started are worth replaying
 Emit == (Len(hist) = MaxStep /\ nsend > 0 /\ started["A"] > 0 /\ started["B"] > 0) => PrintT(<<"HIST", ToJson(hist)>>)
